@@ -112,6 +112,7 @@ Definition n_prof := name4 112 114 111 102.
 Definition n_hvcC := name4 104 118 99 67.
 Definition n_subs := name4 115 117 98 115.
 Definition n_esds := name4 101 115 100 115.
+Definition n_uuid := name4 117 117 105 100.
 
 (* ---------------------------------------------------------------- box header (box.go / boxsr.go) *)
 Record hdr := mkHdr { h_name : list N; h_size : N; h_len : N }.
@@ -218,7 +219,13 @@ Inductive leaf :=
    DecConfigDescriptor, SLConfig/Other descriptors, UnknownData); canon (ghost, computed by the decoder): every size
    field was written in the encoder's form and no UnknownData was kept *)
 | LEsds (version flags nb esid fl dep : N) (url : list N) (ocr : N) (dcd : desc) (children : list desc)
-        (unknown : list N) (canon : bool).
+        (unknown : list N) (canon : bool)
+(* UUIDBox: tfxd (Version Flags FragmentAbsoluteTime FragmentAbsoluteDuration), tfrf (Version Flags FragmentCount, times and
+   durations), PIFF sample encryption (a SencBox without header: the fields of LSenc), any other uuid (UnknownPayload) *)
+| LUuidTfxd (version flags t d : N)
+| LUuidTfrf (version flags count : N) (entries : list (N * N))
+| LUuidSenc (flags count : N) (raw : list N) (readSize : N) (notParsed : bool)
+| LUuidUnk (uuid payload : list N).
 
 Definition leaf_name (l : leaf) : list N :=
   match l with
@@ -239,6 +246,7 @@ Definition leaf_name (l : leaf) : list N :=
   | LSenc _ _ _ _ _ => n_senc | LEmsg _ _ _ _ _ _ _ _ _ => n_emsg | LElng _ _ _ _ => n_elng | LKind _ _ _ _ => n_kind
   | LHvcC _ _ _ _ _ _ _ _ _ _ _ _ _ _ _ _ => n_hvcC | LSubs _ _ _ => n_subs
   | LEsds _ _ _ _ _ _ _ _ _ _ _ _ => n_esds
+  | LUuidTfxd _ _ _ _ => n_uuid | LUuidTfrf _ _ _ _ => n_uuid | LUuidSenc _ _ _ _ _ => n_uuid | LUuidUnk _ _ => n_uuid
   end.
 
 Definition unity_matrix : list N :=
@@ -1054,6 +1062,34 @@ Definition dec_esds (h : hdr) : parser (leaf * rsvT) :=
         end
     end.
 
+(* ---------------------------------------------------------------- uuid (mp4/uuid.go) *)
+Definition uuid_tfxd : list N := [109; 29; 155; 5; 66; 213; 68; 230; 128; 226; 20; 29; 175; 247; 87; 178].
+Definition uuid_tfrf : list N := [212; 128; 126; 242; 202; 57; 70; 149; 142; 84; 38; 203; 158; 70; 167; 159].
+Definition uuid_piff : list N := [162; 57; 79; 82; 90; 155; 79; 20; 162; 68; 108; 66; 124; 100; 141; 244].
+Definition rd_pairw (w : nat) : parser (N * N) := pdo a <- rd w ;; pdo b <- rd w ;; pret (a, b).
+Definition wr_pairw (w : nat) (p : N * N) : list N := be_enc w (fst p) ++ be_enc w (snd p).
+Definition uuid_w (v : N) : nat := if v =? 0 then 4%nat else 8%nat.
+(* the PIFF variant hands DecodeSencSR the header {"senc", hdr.Size - 16, 8}; the unknown variant reads
+   int(hdr.Size) - 8 - 16 bytes whatever the header length *)
+Definition dec_uuid (h : hdr) : parser (leaf * rsvT) :=
+  pdo u <- rdB 16 ;;
+  if bytes_eqb u uuid_tfxd then
+    (pdo vf <- rd 4 ;; pdo t <- rd (uuid_w (vf_version vf)) ;; pdo d <- rd (uuid_w (vf_version vf)) ;;
+     pret (LUuidTfxd (vf_version vf) (vf_flags vf) t d, []))
+  else if bytes_eqb u uuid_tfrf then
+    (pdo vf <- rd 4 ;; pdo cnt <- rd 1 ;;
+     pdo es <- rd_many 256 cnt (rd_pairw (uuid_w (vf_version vf))) ;;
+     pret (LUuidTfrf (vf_version vf) (vf_flags vf) cnt es, []))
+  else if bytes_eqb u uuid_piff then
+    (if h_size h <? 16 then pfail else
+     pdo x <- dec_senc (mkHdr n_senc (h_size h - 16) 8) ;;
+     match fst x with
+     | LSenc fl cnt raw rs np => pret (LUuidSenc fl cnt raw rs np, [])
+     | _ => pfail
+     end)
+  else if h_size h <? 24 then pfail
+  else pdo p <- rdB (h_size h - 24) ;; pret (LUuidUnk u p, []).
+
 (* ---------------------------------------------------------------- encoders (bodies) *)
 Definition ok_bytes (l : list N) : res (list N) := Ok l.
 
@@ -1200,6 +1236,16 @@ Definition body_leaf (l : leaf) (r : rsvT) : res (list N) :=
           (if fl / 128 =? 1 then be_enc 2 dep else []) ++
           (if (fl / 64) mod 2 =? 1 then be_enc 1 (lenN url) ++ url else []) ++
           (if (fl / 32) mod 2 =? 1 then be_enc 2 ocr else []) ++ x ++ y ++ u)
+  | LUuidTfxd v f t d =>
+      Ok (uuid_tfxd ++ be_enc 4 (vf_join v f) ++ be_enc (uuid_w v) t ++ be_enc (uuid_w v) d)
+  | LUuidTfrf v f cnt es =>
+      (* for i := byte(0); i < t.FragmentCount; i++ { ...FragmentAbsoluteTimes[i]... } *)
+      if lenN es <? cnt then Panic
+      else Ok (uuid_tfrf ++ be_enc 4 (vf_join v f) ++ be_enc 1 cnt ++ flat_map (wr_pairw (uuid_w v)) (firstn (N.to_nat cnt) es))
+  | LUuidSenc f cnt raw _ np =>      (* b.Senc.EncodeSWNoHdr *)
+      if negb np && has f 2 && (0 <? cnt) then Panic
+      else Ok (uuid_piff ++ be_enc 4 (vf_join 0 f) ++ be_enc 4 cnt ++ (if np then raw else []))
+  | LUuidUnk u p => Ok (u ++ p)
   end.
 
 (* WriteZeroBytes(int(31 - compressorNameLength)) with compressorNameLength := byte(len(name)), in byte arithmetic *)
@@ -1310,6 +1356,10 @@ Definition size_leaf (l : leaf) : N :=
       8 + 23 + sumN (map (fun a => 3 + sumN (map (fun x => 2 + lenN x) (snd a))) arrays)
   | LSubs v _ es => 16 + sumN (map (fun e => 6 + lenN (snd e) * (if v =? 1 then 10 else 8)) es)
   | LEsds _ _ nb _ fl _ url _ dcd cs u _ => 8 + 4 + (1 + sfs_of nb + 1 + es_size_of fl url dcd cs u)
+  | LUuidTfxd v _ _ _ => 24 + (if negb (v =? 0) then 20 else 12)
+  | LUuidTfrf v _ cnt _ => 24 + 5 + (if negb (v =? 0) then 16 else 8) * cnt
+  | LUuidSenc _ _ _ rs _ => 24 + (rs - 8)                  (* b.Senc.Size() - 8 *)
+  | LUuidUnk _ p => 24 + lenN p
   end.
 
 (* header written by the leaf encoder *)
@@ -1341,7 +1391,7 @@ Definition leaf_table : list (list N * (hdr -> parser (leaf * rsvT))) :=
     (n_url, dec_url); (n_avcC, dec_avcC); (n_btrt, dec_btrt); (n_pasp, dec_pasp); (n_colr, dec_colr);
     (n_clap, dec_clap); (n_schm, dec_schm); (n_cslg, dec_cslg);
     (n_senc, dec_senc); (n_emsg, dec_emsg); (n_elng, dec_elng); (n_kind, dec_kind);
-    (n_hvcC, dec_hvcC); (n_subs, dec_subs); (n_esds, dec_esds) ].
+    (n_hvcC, dec_hvcC); (n_subs, dec_subs); (n_esds, dec_esds); (n_uuid, dec_uuid) ].
 
 (* boxes with a field prefix followed by child boxes.  PStrict off: DecodeContainerChildrenSR(hdr, startPos+off,
    startPos+hdr.Size) (sizes cross-checked against the bytes consumed); PEntry start: the sample entry loop
@@ -1605,6 +1655,7 @@ Definition leaf_guard (l : leaf) : bool :=
   (* an esds whose size fields are not in the encoder's form (e.g. an SLConfigDescriptor announcing 0 bytes) or that
      kept UnknownData *)
   | LEsds _ _ _ _ _ _ _ _ _ _ _ canon => canon
+  | LUuidSenc _ _ raw _ np => np || (lenN raw =? 0)
   | _ => true
   end.
 
